@@ -265,7 +265,7 @@ fn build_output(c: &CellS, dao_type: bool, satoshi_lock: bool, consensus: &Conse
 }
 
 fn dao_header(number: u64, ar: u64, salt: u64) -> HeaderView {
-    HeaderBuilder::default()
+    hb()
         .number(number)
         .timestamp(salt)
         .dao(pack_dao_data(ar, Capacity::zero(), Capacity::zero(), Capacity::zero()))
@@ -578,7 +578,7 @@ impl Exec {
             "primary" => {
                 let (st, len, base, rem, n) = (num(ts[1]), num(ts[2]), num(ts[3]), num(ts[4]), num(ts[5]));
                 let mut dl = MockDL::default();
-                let target = HeaderBuilder::default().number(n).build();
+                let target = hb().number(n).build();
                 dl.epochs.insert(target.hash(), epoch_ext(st, len, base, rem));
                 let consensus = &self.consensus;
                 match guarded(|| DaoCalculator::new(consensus, &dl).primary_block_reward(&target)) {
@@ -595,11 +595,11 @@ impl Exec {
                 let (ser, st, len, base, rem, n, pc, pu) =
                     (num(ts[1]), num(ts[2]), num(ts[3]), num(ts[4]), num(ts[5]), num(ts[6]), num(ts[7]), num(ts[8]));
                 let mut dl = MockDL::default();
-                let parent = HeaderBuilder::default()
+                let parent = hb()
                     .number(n.saturating_sub(1))
                     .dao(pack_dao_data(0, Capacity::shannons(pc), Capacity::zero(), Capacity::shannons(pu)))
                     .build();
-                let target = HeaderBuilder::default().number(n).parent_hash(parent.hash()).build();
+                let target = hb().number(n).parent_hash(parent.hash()).build();
                 dl.headers.insert(parent.hash(), parent.clone());
                 dl.epochs.insert(target.hash(), epoch_ext(st, len, base, rem));
                 let mut consensus = self.consensus.clone();
@@ -629,7 +629,7 @@ impl Exec {
                 let mut consensus = self.consensus.clone();
                 consensus.secondary_epoch_reward = Capacity::shannons(ser);
                 let rtxs: Vec<ResolvedTransaction> = txs.iter().map(|t| build_rtx(t, &consensus, &mut dl)).collect();
-                let parent = HeaderBuilder::default()
+                let parent = hb()
                     .number(pn)
                     .dao(pack_dao_data(ar, Capacity::shannons(c), Capacity::shannons(s), Capacity::shannons(u)))
                     .build();
@@ -668,7 +668,7 @@ impl Exec {
                 let v: Vec<u64> = ts[6..14].iter().map(|s| num(s)).collect();
                 let salt = self.salt;
                 let parent_hash = if n == 0 { Byte32::zero() } else { self.blocks[n as usize - 1].block.hash() };
-                let header = HeaderBuilder::default()
+                let header = hb()
                     .number(n)
                     .parent_hash(parent_hash)
                     .timestamp(salt * 1_000_000 + n)
@@ -693,7 +693,7 @@ impl Exec {
                 for (k, u) in us.into_iter().enumerate() {
                     if !u.is_empty() {
                         let ub = BlockBuilder::default()
-                            .header(HeaderBuilder::default().number(n).timestamp(salt * 1_000_000 + 500_000 + k as u64).build())
+                            .header(hb().number(n).timestamp(salt * 1_000_000 + 500_000 + k as u64).build())
                             .proposals(u)
                             .build();
                         bb = bb.uncle(ub.as_uncle());
@@ -1271,7 +1271,7 @@ fn fingerprint(answers: &[String]) -> String {
 }
 
 pub fn run(opts: &Opts) {
-    std::panic::set_hook(Box::new(|_| {}));
+    if std::env::var("VERIF_C06_DEBUG").is_err() { std::panic::set_hook(Box::new(|_| {})); }
     let stream = opts.extra.first().map(|s| s.as_str()).unwrap_or("arith").to_string();
     let mut out = Out::new(&opts.out);
     let mut ex = Exec::new();
@@ -1321,4 +1321,9 @@ pub fn run(opts: &Opts) {
     }
     ex.cleanup();
     out.finish("a case is non-trivial when at least one op of it was answered `ok …` by the real code (a value was computed, not only errors); distinctness is by the hash of the case's answer sequence");
+}
+
+/// a header builder with a well-formed (non-genesis) epoch field, as `HeaderBuilder::build` demands
+fn hb() -> HeaderBuilder {
+    HeaderBuilder::default().epoch(EpochNumberWithFraction::new(1, 0, 1))
 }
